@@ -219,6 +219,12 @@ func (g *pathGen) genPath() (string, any, string) {
 			cur, class = nativeField(cur, name)
 		default: // nil, nil pointer, scalars
 			name := g.r.Pick([]string{"Name", "x", "Hello", "PtrM"})
+			if g.r.Chance(20) {
+				// slicing anything but an array or slice (strings included) is an error, never a value
+				text += g.r.Pick([]string{"[0:1]", "[:1]", "[0:]", "[:]", "[0:1:1]"})
+				cur, class = nil, "err"
+				break
+			}
 			if g.r.Chance(30) {
 				text += "[0]"
 				name = "0"
